@@ -175,12 +175,54 @@ static void build_api(typename Doc::NodeType& n, const ref::Value& v, typename D
   }
 }
 
+// R5: like the plain API build, but every object first receives an extra member "zz", then a lookup map,
+// then the remaining members, and finally RemoveMember("zz") (a non-last member, map present)
+template <class Doc>
+static void build_removed(typename Doc::NodeType& n, const ref::Value& v, typename Doc::Allocator& al) {
+  using N = typename Doc::NodeType;
+  switch (v.k) {
+    case ref::Arr:
+      n.SetArray();
+      for (auto& e : v.a) {
+        N c;
+        build_removed<Doc>(c, e, al);
+        n.PushBack(std::move(c), al);
+      }
+      n.PushBack(N(uint64_t(99)), al);
+      n.PopBack();
+      break;
+    case ref::Obj: {
+      n.SetObject();
+      n.AddMember("zz", N(uint64_t(0)), al, true);
+      n.CreateMap(al);
+      // the model removes by moving the last member into the hole: to end with v's order, insert the
+      // member that must end up first LAST
+      size_t cnt = v.o.size();
+      for (size_t i = 1; i < cnt; i++) {
+        N c;
+        build_removed<Doc>(c, v.o[i].second, al);
+        n.AddMember(v.o[i].first == "a" ? "a" : v.o[i].first == "b" ? "b" : "c", std::move(c), al, true);
+      }
+      if (cnt > 0) {
+        N c;
+        build_removed<Doc>(c, v.o[0].second, al);
+        n.AddMember(v.o[0].first == "a" ? "a" : v.o[0].first == "b" ? "b" : "c", std::move(c), al, true);
+      }
+      n.RemoveMember("zz");
+      break;
+    }
+    default:
+      build_api<Doc>(n, v, al, false, true, false);
+  }
+}
+
 struct Real5 {
   std::unique_ptr<PoolDoc> parsed;      // R0 parsed, pool
   std::unique_ptr<PoolDoc> api_rev;     // R1 built by the API in reverse member order, const strings
   std::unique_ptr<SimpleDoc> copied;    // R2 deep copy into a freeing-allocator document
   std::unique_ptr<PoolDoc> api_extra;   // R3 API-built, owned strings, stale payloads, extra capacity, lookup maps
   std::unique_ptr<SimpleDoc> reparsed;  // R4 parse of Dump() with the freeing allocator
+  std::unique_ptr<PoolDoc> removed;     // R5 every object gets an extra first member and a lookup map, then RemoveMember takes it out again
 };
 
 int main(int argc, char** argv) {
@@ -202,9 +244,11 @@ int main(int argc, char** argv) {
     build_api<PoolDoc>(*Z[i].api_extra, V[i], Z[i].api_extra->GetAllocator(), false, true, true);
     Z[i].reparsed.reset(new SimpleDoc());
     Z[i].reparsed->Parse(Z[i].api_extra->Dump());
+    Z[i].removed.reset(new PoolDoc());
+    build_removed<PoolDoc>(*Z[i].removed, V[i], Z[i].removed->GetAllocator());
     // every realisation must denote the value (through the accessors), otherwise the harness is wrong
-    for (int r = 0; r < 5; r++) {
-      ref::Value got = r == 0 ? sc::to_ref(*Z[i].parsed) : r == 1 ? sc::to_ref(*Z[i].api_rev) : r == 2 ? sc::to_ref(*Z[i].copied) : r == 3 ? sc::to_ref(*Z[i].api_extra) : sc::to_ref(*Z[i].reparsed);
+    for (int r = 0; r < 6; r++) {
+      ref::Value got = r == 0 ? sc::to_ref(*Z[i].parsed) : r == 1 ? sc::to_ref(*Z[i].api_rev) : r == 2 ? sc::to_ref(*Z[i].copied) : r == 3 ? sc::to_ref(*Z[i].api_extra) : r == 4 ? sc::to_ref(*Z[i].reparsed) : sc::to_ref(*Z[i].removed);
       if (!ref::equal(got, V[i]) && build_error.empty()) build_error = "realisation " + std::to_string(r) + " of " + text + " reads back as " + ref::show(got);
     }
   }
@@ -246,7 +290,7 @@ int main(int argc, char** argv) {
   f1.group = "E1";
   f1.chunk = 512;
   f1.rule = "all ordered pairs over " + std::to_string(NV) +
-            " values (13 scalars of every kind, arrays and objects with <= 3 children over {null,1,1.0,\"a\"...}, nested containers of depth 2; keys a,b,c, every member order) x all 25 pairs of realisations (parsed / API-built in reverse member order with constant strings / deep copy into a freeing-allocator document / API-built with owned strings, stale node payloads, extra capacity and lookup maps / reparse of Dump()): a==b <=> reference equality, != is the negation, symmetric. Non-trivial: the two values have the same kind.";
+            " values (13 scalars of every kind, arrays and objects with <= 3 children over {null,1,1.0,\"a\"...}, nested containers of depth 2; keys a,b,c, every member order) x all 36 pairs of realisations (parsed / API-built in reverse member order with constant strings / deep copy into a freeing-allocator document / API-built with owned strings, stale node payloads, extra capacity and lookup maps / reparse of Dump() / built with an extra member that RemoveMember takes out again under a lookup map): a==b <=> reference equality, != is the negation, symmetric. Non-trivial: the two values have the same kind.";
   f2.name = "E2_transitivity_triples";
   f2.count = (uint64_t)NT * NT * NT;
   f2.group = "E2";
@@ -261,7 +305,8 @@ int main(int argc, char** argv) {
         case 1: return (int)(A == *Z[j].api_rev) | ((int)(A != *Z[j].api_rev) << 1);
         case 2: return (int)(A == *Z[j].copied) | ((int)(A != *Z[j].copied) << 1);
         case 3: return (int)(A == *Z[j].api_extra) | ((int)(A != *Z[j].api_extra) << 1);
-        default: return (int)(A == *Z[j].reparsed) | ((int)(A != *Z[j].reparsed) << 1);
+        case 4: return (int)(A == *Z[j].reparsed) | ((int)(A != *Z[j].reparsed) << 1);
+        default: return (int)(A == *Z[j].removed) | ((int)(A != *Z[j].removed) << 1);
       }
     };
     switch (ri) {
@@ -269,10 +314,11 @@ int main(int argc, char** argv) {
       case 1: return go(static_cast<const PoolDoc::NodeType&>(*Z[i].api_rev));
       case 2: return go(static_cast<const SimpleDoc::NodeType&>(*Z[i].copied));
       case 3: return go(static_cast<const PoolDoc::NodeType&>(*Z[i].api_extra));
-      default: return go(static_cast<const SimpleDoc::NodeType&>(*Z[i].reparsed));
+      case 4: return go(static_cast<const SimpleDoc::NodeType&>(*Z[i].reparsed));
+      default: return go(static_cast<const PoolDoc::NodeType&>(*Z[i].removed));
     }
   };
-  static const char* rn[5] = {"parsed", "api-reversed", "deep-copy(freeing alloc)", "api+maps+capacity+stale", "reparsed-dump(freeing alloc)"};
+  static const char* rn[6] = {"parsed", "api-reversed", "deep-copy(freeing alloc)", "api+maps+capacity+stale", "reparsed-dump(freeing alloc)", "member-removed-under-map"};
 
   vr::CheckFn check = [&](const vr::Family& f, uint64_t idx, vr::Ctx& ctx) {
     if (!build_error.empty()) {
@@ -284,8 +330,8 @@ int main(int argc, char** argv) {
       bool want = ref::equal(V[i], V[j]);
       if (V[i].k == V[j].k || (V[i].k <= ref::Real && V[j].k <= ref::Real && V[i].k >= ref::Uint && V[j].k >= ref::Uint)) ctx.nontriv();
       if (ctx.want_sample) ctx.sample(ref::show(V[i]) + "  vs  " + ref::show(V[j]));
-      for (int ri = 0; ri < 5; ri++)
-        for (int rj = 0; rj < 5; rj++) {
+      for (int ri = 0; ri < 6; ri++)
+        for (int rj = 0; rj < 6; rj++) {
           ctx.eval();
           int r = eq(i, ri, j, rj);
           bool e = r & 1, ne = (r >> 1) & 1;
@@ -298,13 +344,13 @@ int main(int argc, char** argv) {
           if ((r2 & 1) != (r & 1)) ctx.violation("eq_asymmetric", "eq_asymmetric", ref::show(V[i]) + " vs " + ref::show(V[j]), "a==b is %d but b==a is %d for [%s] vs [%s]", r & 1, r2 & 1, rn[ri], rn[rj]);
         }
       if (i == j) {
-        for (int ri = 0; ri < 5; ri++)
+        for (int ri = 0; ri < 6; ri++)
           if (!(eq(i, ri, i, ri) & 1)) ctx.violation("eq_irreflexive", "eq_irreflexive", ref::show(V[i]), "a==a is false for realisation %s", rn[ri]);
       }
       return;
     }
     size_t a = tsub[idx / (NT * NT)], b = tsub[(idx / NT) % NT], c = tsub[idx % NT];
-    int ra = (int)(idx % 5), rb = (int)((idx / 5) % 5), rc = (int)((idx / 25) % 5);
+    int ra = (int)(idx % 6), rb = (int)((idx / 6) % 6), rc = (int)((idx / 36) % 6);
     ctx.eval();
     bool ab = eq(a, ra, b, rb) & 1, bc = eq(b, rb, c, rc) & 1, ac = eq(a, ra, c, rc) & 1;
     if (ab && bc) ctx.nontriv();
